@@ -263,6 +263,8 @@ def explore_frames(res, tier, rng, model_ok):
 
 
 def explore(res, tier, seed, model_ok=True):
+    import gencheck   # differential test of the translated code (Generated/Code.lean) against the original Python
+    gencheck.run(res, 'C03', tier, seed, model_ok)
     rng = random.Random(seed)
     res.rule = ('API calls made by the application at the Ready event on the real WebSocket: send_binary/send_text with every length 0..130 and around 65536, ping/pong/close lengths 0..130, '
                 'texts over all planes, lone surrogates, wrong argument types, out-of-range close codes; with and without negotiated compression and compress flag; every written frame decoded by the independent decoder; '
